@@ -362,6 +362,10 @@ fn programs(thorough: bool) -> Vec<Program> {
         Program { name: "undirected hub: create_edge(h,a) || create_edge(b,h)".into(), nodes: 3, pre_edges: vec![], threads: vec![vec![TOp::CreateEdge(0, 1, false)], vec![TOp::CreateEdge(2, 0, false)]] },
         Program { name: "create_edge(a,b) || delete_node(a)".into(), nodes: 2, pre_edges: vec![], threads: vec![vec![TOp::CreateEdge(0, 1, true)], vec![TOp::DeleteNode(0)]] },
         Program { name: "create_edge(a,b) || delete_node(b)".into(), nodes: 2, pre_edges: vec![], threads: vec![vec![TOp::CreateEdge(0, 1, true)], vec![TOp::DeleteNode(1)]] },
+        Program { name: "undirected create_edge(a,b) || delete_node(a)".into(), nodes: 2, pre_edges: vec![], threads: vec![vec![TOp::CreateEdge(0, 1, false)], vec![TOp::DeleteNode(0)]] },
+        Program { name: "undirected create_edge(a,b) || delete_node(b)".into(), nodes: 2, pre_edges: vec![], threads: vec![vec![TOp::CreateEdge(0, 1, false)], vec![TOp::DeleteNode(1)]] },
+        Program { name: "undirected delete_edge(e) || delete_node(endpoint)".into(), nodes: 3, pre_edges: vec![(0, 1, false), (2, 0, false)], threads: vec![vec![TOp::DeleteEdge(0)], vec![TOp::DeleteNode(1)]] },
+        Program { name: "undirected create_edge(b,h) || delete_edge(h,a)".into(), nodes: 3, pre_edges: vec![(0, 1, false)], threads: vec![vec![TOp::CreateEdge(2, 0, false)], vec![TOp::DeleteEdge(0)]] },
         Program { name: "delete_edge(e) || delete_node(endpoint)".into(), nodes: 3, pre_edges: vec![(0, 1, true), (0, 2, true)], threads: vec![vec![TOp::DeleteEdge(0)], vec![TOp::DeleteNode(1)]] },
         Program { name: "create_edge(h,b) || delete_edge(h,a)".into(), nodes: 3, pre_edges: vec![(0, 1, true)], threads: vec![vec![TOp::CreateEdge(0, 2, true)], vec![TOp::DeleteEdge(0)]] },
         Program { name: "delete_edge(e1) || delete_edge(e2) same hub".into(), nodes: 3, pre_edges: vec![(0, 1, true), (0, 2, true)], threads: vec![vec![TOp::DeleteEdge(0)], vec![TOp::DeleteEdge(1)]] },
